@@ -1736,6 +1736,13 @@ class Interp:
                 if (nlo, nhi) != (olo, ohi):
                     changed[0] = True
                 res.bounds[pn] = (nlo, nhi)
+                if a.bits is not None and ty is not None and not ty[1]:
+                    bb_ = self.bits_of(new, b, ty[0])
+                    jb = tuple(x if x == y else None for x, y in zip(a.bits, bb_))
+                    if jb != a.bits:
+                        changed[0] = True
+                        self.syminfo[pn] = ("bits", jb)
+                        a = IntV(a.aff, ty, bits=jb if any(x is not None for x in jb) else None)
                 ex = res.excl.get(pn)
                 if ex:
                     keep = frozenset(v for v in ex if not new.may_equal_const(b.aff, v))
@@ -1751,7 +1758,14 @@ class Interp:
             res.bounds[pn] = (lo, hi)
             res.excl.pop(pn, None)
             phis[pn] = (a.aff, b.aff)
-            return IntV(Aff.sym(pn), ty)
+            jbits = None
+            if ty is not None and not ty[1] and ty[0] <= 64 and (a.bits is not None or b.bits is not None):
+                ba, bb_ = self.bits_of(old, a, ty[0]), self.bits_of(new, b, ty[0])
+                jb = tuple(x if x == y else None for x, y in zip(ba, bb_))
+                if any(x is not None for x in jb):
+                    jbits = jb
+                    self.syminfo[pn] = ("bits", jb)
+            return IntV(Aff.sym(pn), ty, bits=jbits)
 
         def jaff(a, b, name):
             if a == b:
